@@ -167,6 +167,100 @@ def check_wrapper_siblings(ctx, F):
                 dageq.diff(dageq.fingerprint(e[0]), dageq.fingerprint(d[0]))[:300]), key=key, loc=rules.loc(e[0]))
 
 
+def _eval_with(t, subst):
+    """integer value of a term in which the terms of `subst` are replaced by numbers (None if anything else remains)."""
+    for k, v in subst:
+        if t == k:
+            return v
+    if sym.is_int(t):
+        return t[1]
+    if not isinstance(t, tuple) or not t:
+        return None
+    if t[0] == 'cast':
+        return _eval_with(t[2], subst)
+    if t[0] == 'bin':
+        x, y = _eval_with(t[2], subst), _eval_with(t[3], subst)
+        if x is None or y is None:
+            return None
+        op = t[1].split('.')[0]
+        return {'Add': x + y, 'Sub': x - y, 'Mul': x * y}.get(op, (x // y) if op == 'Div' and y else ((x >> y) if op == 'Shr' else ((x << y) if op == 'Shl' else None)))
+    return None
+
+
+def check_num_symbols(ctx, F):
+    """`num_symbols()` of each tree inverts the size relation of its builder.  The builders allocate the node table from the
+    number n of weights (encoder: `vec![0; 2n - 1]`, decoder: `Vec::with_capacity(n - 1)` filled with one entry per merge);
+    the accessor recovers n from the table length.  The two trees use different layouts, so the formulas differ - a formula
+    copied from the sibling is wrong by a factor of two.  Decided by evaluating both terms for n = 1..8."""
+    for adt in (ENC, DEC):
+        key = 'R4/num-symbols-inverts-builder/' + adt
+        role = 'num_symbols() recovers the alphabet size from the node table the builder allocates'
+        acc = [b for b in F.bodies if b.promoted is None and b.name == 'num_symbols' and b.self_adt == adt and b.impl_trait is None]
+        bld = [b for b in F.bodies if b.promoted is None and b.name == BUILDER and b.self_adt == adt]
+        if not acc or not bld:
+            ctx.unresolved('R4', role, adt, 'accessor or builder not found', key=key)
+            continue
+        ctx.touch(acc[0])
+        _, pa = rules.evaluate(acc[0])
+        ra = [r for r in pa or [] if r.end == 'return']
+        _, pb = rules.evaluate(bld[0])
+        size = None
+        for r in pb or []:
+            for e in r.events:
+                if e['kind'] == 'call' and (e['callee'].endswith('vec::from_elem') or e['callee'].endswith('::with_capacity')):
+                    t = e['args_val'][-1] if e['callee'].endswith('::with_capacity') else e['args_val'][1]
+                    hl = [x for x in sym.subterms(t) if isinstance(x, tuple) and x and x[0] == 'call' and str(x[1]).endswith('BinaryHeap::<T, A>::len')]
+                    if hl:
+                        size = (t, hl[0])
+        if len(ra) != 1 or size is None:
+            ctx.unresolved('R4', role, adt, 'accessor has several paths or the builder does not size the node table from the heap length', key=key)
+            continue
+        lens = [x for x in sym.subterms(ra[0].ret) if isinstance(x, tuple) and x and x[0] == 'len']
+        bad = None
+        for n in range(1, 9):
+            L = _eval_with(size[0], [(size[1], n)])
+            got = _eval_with(ra[0].ret, [(l, L) for l in lens]) if L is not None else None
+            if L is None or got is None:
+                bad = ('unresolved', 'terms not evaluable')
+                break
+            if got != n:
+                bad = ('bad', 'for %d symbols the builder allocates %d node entries, from which num_symbols() computes %d: the accessor does not invert the layout of its own tree (the sibling tree\'s formula?), so the two trees built from the same weights disagree about the size of the alphabet' % (n, L, got))
+                break
+        if bad and bad[0] == 'bad':
+            ctx.bad('R4', role, acc[0].defpath, bad[1], key=key, loc=rules.loc(acc[0]))
+        elif bad:
+            ctx.unresolved('R4', role, acc[0].defpath, bad[1], key=key)
+        else:
+            ctx.ok('R4', role, acc[0].defpath, 'table size %s, accessor %s: identity for n = 1..8' % (sym.show(size[0])[-40:], sym.show(ra[0].ret)[:40]), key=key)
+
+
+def check_rejects_before_accepting(ctx, F):
+    """Every way out of encode_symbol_suffix that reports success has passed the alphabet test: an out-of-alphabet symbol is
+    an error, whatever the size of the code book (a one-symbol code book has an empty code word, but still only one symbol)."""
+    bs = [b for b in F.bodies if b.promoted is None and b.name == 'encode_symbol_suffix' and b.self_adt == ENC and (b.impl_trait or '').endswith('EncoderCodebook')]
+    key = 'R2/success-implies-in-alphabet/' + ENC
+    role = 'encode_symbol_suffix succeeds only for symbols of the alphabet'
+    if not bs:
+        return ctx.unresolved('R2', role, ENC, 'encode_symbol_suffix not found', key=key)
+    b = bs[0]
+    ctx.touch(b)
+    _, paths = rules.evaluate(b)
+    is_sym = lambda x: x == ('arg', 2) or (isinstance(x, tuple) and x and x[0] == 'in' and x[1][0] == 2)
+    n_ok = 0
+    bad = None
+    for r in paths or []:
+        if r.end == 'backedge' or (r.end == 'return' and rules.ret_shape(r.ret)[0] == 'Ok'):
+            n_ok += 1
+            if not any(sym.contains(t, is_sym) and sym.contains(rules.inline_pure(F, t), lambda x: isinstance(x, tuple) and x and x[0] == 'len') for t, v, _ in r.preds):
+                bad = 'a path reports success (or starts emitting) without having compared the symbol with the size of the code book: a symbol outside the alphabet is silently accepted and vanishes from the bit stream'
+    if bad:
+        ctx.bad('R2', role, b.defpath, bad, key=key, loc=rules.loc(b))
+    elif not n_ok:
+        ctx.unresolved('R2', role, b.defpath, 'no successful path', key=key)
+    else:
+        ctx.ok('R2', role, b.defpath, '%d successful / emitting path(s), each behind the alphabet test' % n_ok, key=key)
+
+
 def check_weight_wrapper(ctx, F):
     """Float weights reach the two tree builders through a private ordered wrapper.  For the float constructors to build the
     same code books as the integer constructors on equal weights (and on each other),
@@ -233,6 +327,8 @@ def run(ctx):
     F = ctx.F
     check_wrapper_siblings(ctx, F)
     check_weight_wrapper(ctx, F)
+    check_num_symbols(ctx, F)
+    check_rejects_before_accepting(ctx, F)
     check_emit_callbacks(ctx, F)
     eb = [b for b in F.bodies if b.promoted is None and b.name == BUILDER and b.self_adt == ENC]
     db = [b for b in F.bodies if b.promoted is None and b.name == BUILDER and b.self_adt == DEC]
